@@ -244,7 +244,7 @@ func checkC02(ref *progen.Ref, o *runOut) []finding {
 		out = append(out, finding{"result", fmt.Sprintf("returned %s, sequential evaluation yields %s", o.term, ref.Result)})
 	}
 	by := callsByName(o.res)
-	for name := range ref.Calls {
+	for _, name := range sortedKeys(ref.Calls) {
 		switch n := len(by[name]); {
 		case n == 0:
 			out = append(out, finding{"count:needed-missing", "needed provider " + name + " was never invoked"})
@@ -252,7 +252,13 @@ func checkC02(ref *progen.Ref, o *runOut) []finding {
 			out = append(out, finding{"count:needed-twice", fmt.Sprintf("provider %s invoked %d times", name, n)})
 		}
 	}
-	for name, cs := range by {
+	var called []string
+	for name := range by {
+		called = append(called, name)
+	}
+	sort.Strings(called)
+	for _, name := range called {
+		cs := by[name]
 		rc := ref.Calls[name]
 		if rc == nil {
 			out = append(out, finding{"count:unneeded-called", "provider " + name + " is not needed for the requested type and was invoked"})
@@ -364,7 +370,12 @@ func checkC06(ref *progen.Ref, o *runOut) []finding {
 	}
 	for i := range o.res.Calls {
 		c := &o.res.Calls[i]
+		var anc []string
 		for a := range ref.Ancestors[c.Name] {
+			anc = append(anc, a)
+		}
+		sort.Strings(anc)
+		for _, a := range anc {
 			if failed[a] {
 				out = append(out, finding{"dependent_invoked", fmt.Sprintf("provider %s was invoked although %s, which it depends on, failed", c.Name, a)})
 			}
@@ -692,7 +703,15 @@ func minimise(pr *PkgReg, c Case, ref *progen.Ref, check func(*progen.Ref, *runO
 		return c, orig
 	}
 	// 1. fault plan
+	var failNames []string
 	for name := range best.Plan.Fail {
+		failNames = append(failNames, name)
+	}
+	sort.Strings(failNames)
+	for _, name := range failNames {
+		if !best.Plan.Fail[name] {
+			continue
+		}
 		n := best
 		n.Plan.Fail = map[string]bool{}
 		for k, v := range best.Plan.Fail {
@@ -784,11 +803,12 @@ func Main(register func(*Registry)) {
 		rn.explore()
 	}
 	for h := range rn.hashes {
-		if len(out.Interleavings) < 200 {
-			out.Interleavings = append(out.Interleavings, h)
-		}
+		out.Interleavings = append(out.Interleavings, h)
 	}
 	sort.Strings(out.Interleavings)
+	if len(out.Interleavings) > 200 {
+		out.Interleavings = out.Interleavings[:200] // a sample for the evidence; the count is InterleavingsN
+	}
 	out.InterleavingsN = len(rn.hashes)
 	writeOut(out, start)
 	if len(out.Harness) > 0 {
